@@ -44,8 +44,14 @@ pub fn layout(bytes: &[u8]) -> Option<Vec<FuncLayout>> {
 
 /// The `.debug_*` custom sections (name, payload) describing `bytes`.
 pub fn synthesize(bytes: &[u8]) -> Option<Vec<(String, Vec<u8>)>> {
+    synthesize_ex(bytes, false)
+}
+
+/// `allow_empty`: also describe a module WITHOUT any local function (a compile unit with no subprogram and an
+/// empty line program) instead of declining.
+pub fn synthesize_ex(bytes: &[u8], allow_empty: bool) -> Option<Vec<(String, Vec<u8>)>> {
     let funcs = layout(bytes)?;
-    if funcs.is_empty() {
+    if funcs.is_empty() && !allow_empty {
         return None;
     }
     let encoding = Encoding { format: Format::Dwarf32, version: 4, address_size: 4 };
@@ -105,7 +111,11 @@ pub fn synthesize(bytes: &[u8]) -> Option<Vec<(String, Vec<u8>)>> {
 
 /// Append the synthesised DWARF sections to a module.
 pub fn attach(bytes: &[u8]) -> Option<Vec<u8>> {
-    let secs = synthesize(bytes)?;
+    attach_ex(bytes, false)
+}
+
+pub fn attach_ex(bytes: &[u8], allow_empty: bool) -> Option<Vec<u8>> {
+    let secs = synthesize_ex(bytes, allow_empty)?;
     let mut out = bytes.to_vec();
     for (name, data) in secs {
         out.extend_from_slice(&crate::wasmsplit::custom_section_bytes(name.as_bytes(), &data));
